@@ -14,7 +14,8 @@ RULE = ("Schema values with `properties` over <= 6 names and a PropertyOrder lis
         "exhaustively, random ones beyond, names absent from properties, duplicates (expected: error), nested schemas each with their own "
         "order; 5 repeated Marshal calls per value (Go re-randomises map iteration). Expected key order computed here from the statement "
         "(listed names first in that order, the rest ascending). Non-trivial: >= 2 properties; distinct = operation text")
-NAMES = ["b", "a", "d", "c", "é", "Z", "aa", ""]
+NAMES = ["b", "a", "d", "c", "é", "Z", "aa", "", "first", "first name", "first!", "x<y", "x=y", "a\"b", "a#", "a\\b", "a]b", "a\tb",
+         "a b", "A", "&", "<", ">", "\u2028", "~", "{", "a&b", "a>b", "a\u007fb", "\u00e9a", "e\u0301", "\U0001F600", "\uFFFD"]
 
 
 def expected_order(props, order):
@@ -81,7 +82,13 @@ def judge(o, go, m):
     if m is None or "model" not in m:
         return "violation:driver", "driver: %r" % (m,)
     mo = m["model"]
-    me = o["meta"]
+    # expectations are derived from the operation itself (so that shrinking and replays judge what they run)
+    nodes = o["args"]["desc"].get("nodes") or [{}]
+    root = nodes[o["args"]["desc"].get("root") or 0]
+    me = {"props": [kv[0] for kv in root.get("Properties") or []] if root.get("Properties") is not None else None,
+          "order": list(root.get("PropertyOrder") or []), "nested": (o.get("meta") or {}).get("nested")}
+    if me["nested"] is not None and me["nested"] not in (me["props"] or []):
+        me["nested"] = None
     dup = len(set(me["order"])) != len(me["order"])
     if dup:
         if go.get("outcome") != "marshal-error":
@@ -94,6 +101,8 @@ def judge(o, go, m):
     gval = parse_ordered(go["text"])
     if me["props"] is not None:
         got = gval.get("properties").keys() if isinstance(gval, Obj) and gval.get("properties") is not None else None
+        if got is None and not me["props"] and not me["order"]:
+            got = []
         exp = expected_order(me["props"], me["order"])
         if got != exp:
             return "violation", "key order of properties: %r, expected %r (PropertyOrder %r)" % (got, exp, me["order"])
